@@ -38,7 +38,7 @@ Definition prints_qbytes : list (string * string) := [
   ("unary_type_agnostic_op", "6bd3d9bb5084f4c7");
   ("is_same_size", "b2a65785ea376499");
   ("bmm", "3eb1ab1fb152c011");
-  ("mm", "70b595f473655d10");
+  ("mm", "741cc344d331c8a4");
   ("mul", "2bcab47bd5d1f5b8");
   ("relu", "32a34786ae90cbcc");
   ("_softmax", "b4f288ec4e3c7392");
